@@ -41,14 +41,64 @@ def conflict(policy, w, el_data, el, parent):
     return sib
 
 
+def root_of(el):
+    while True:
+        up = None
+        for attr in ("netlist", "library", "definition", "parent"):
+            if hasattr(type(el), attr):
+                up = getattr(el, attr)
+                break
+        if up is None:
+            return el
+        el = up
+
+
+def subtree_scopes(el):
+    """(children lists) of el and of everything below it, and every element of the subtree."""
+    scopes, elems, todo = [], [], [el]
+    while todo:
+        x = todo.pop()
+        elems.append(x)
+        for attr in ("libraries", "definitions", "ports", "cables", "children"):
+            if hasattr(type(x), attr) and not (attr == "children" and not hasattr(type(x), "ports")):
+                kids = list(getattr(x, attr))
+                scopes.append(kids)
+                if attr != "children":
+                    todo += kids
+                else:
+                    elems += kids
+    return scopes, elems
+
+
 class Model:
     """Reference: what the naming rules say about an edit, from a linear scan of the pre-state."""
 
-    def __init__(self, policy):
+    def __init__(self, policy, mixed=False):
         self.policy = policy
+        self.mixed = mixed
+
+    def at(self, obj):
+        """the model for the tree `obj` lives in: in the mixed scenario the policy is that of the tree's root
+        (recorded when the root was created), otherwise the scenario's."""
+        if not self.mixed or obj is None:
+            return self
+        return Model(root_of(obj).get(".NS", "DEFAULT"))
 
     def checked_keys(self):
         return KEYS if self.policy == "EDIF" else (".NAME",)
+
+    def subtree_compliant(self, el):
+        """would the subtree under el be legal inside a tree of this policy?"""
+        scopes, elems = subtree_scopes(el)
+        for x in elems:
+            if "EDIF.identifier" in x and isinstance(x["EDIF.identifier"], str) and self.illegal("EDIF.identifier", x["EDIF.identifier"]):
+                return False
+        for kids in scopes:
+            for key in self.checked_keys():
+                vals = [fold(self.policy, key, c[key]) for c in kids if key in c and isinstance(c[key], str)]
+                if len(vals) != len(set(vals)):
+                    return False
+        return True
 
     def clash(self, kind, parent, data, exclude=None):
         if parent is None:
@@ -82,7 +132,10 @@ class Model:
             kind = w.kind[w.idx(el)]
             if getattr(el, PARENT_ATTR[kind]) is not None:
                 return None
-            return "refuse" if self.clash(kind, parent, dict(el._data)) else "accept"
+            m = self.at(parent)
+            if self.mixed and not m.subtree_compliant(el):
+                return "refuse"
+            return "refuse" if m.clash(kind, parent, dict(el._data)) else "accept"
         if name in ("element.name=", "element.setitem"):
             el = a[0]
             key, v = (".NAME", a[1]) if name == "element.name=" else (a[1], a[2])
@@ -90,11 +143,12 @@ class Model:
                 return "accept"
             if key not in KEYS:
                 return "accept"
-            if self.illegal(key, v):
+            m = self.at(el)
+            if m.illegal(key, v):
                 return "refuse"
             kind = w.kind[w.idx(el)]
             parent = getattr(el, PARENT_ATTR[kind])
-            return "refuse" if self.clash(kind, parent, {key: v}, exclude=el) else "accept"
+            return "refuse" if m.clash(kind, parent, {key: v}, exclude=el) else "accept"
         if name in ("element.del_name",):
             return "accept"
         if name in ("element.delitem", "element.pop"):
@@ -106,17 +160,18 @@ class Model:
 
 class C10Oracle(Oracle):
     def model(self):
-        return Model(self.scn.policy)
+        return Model(self.scn.policy, mixed=self.scn.name.startswith("N-MIX"))
 
     def state(self, w):
         bad = []
-        m = self.model()
-        pol = self.scn.policy
+        m0 = self.model()
         for i in range(len(w)):
             pk = w.kind[i]
             if pk not in CHILDREN:
                 continue
             parent = w[i]
+            m = m0.at(parent)
+            pol = m.policy
             for ck, lst, getter in CHILDREN[pk]:
                 kids = list(getattr(parent, lst))
                 origin = "clone" if parent.__dict__.get("_vclone") else "built"
@@ -153,6 +208,7 @@ class C10Oracle(Oracle):
             if w.kind[i] not in "NL":
                 continue
             root = w[i]
+            pol = m0.at(root).policy
             defs = [d for l in (root.libraries if w.kind[i] == "N" else [root]) for d in l.definitions]
             for ck, lst, getter in CHILDREN["D"]:
                 for v in VALUES[:3]:
